@@ -56,6 +56,7 @@ int kalign_run(struct msa *msa, int n_threads, int type, float gpo, float gpe, f
 {
         struct aln_tasks* tasks = NULL;
         struct aln_param* ap = NULL;
+        int sorted = 0;
         KV_EVENT(KV_RUN_BEGIN,0,0,0,msa,NULL);
         /* This also adds the ranks of the sequences !  */
         RUN(kalign_essential_input_check(msa, 0));
@@ -66,6 +67,7 @@ int kalign_run(struct msa *msa, int n_threads, int type, float gpo, float gpe, f
         }
         /* Make sure sequences are in order  */
         RUN(msa_sort_len_name(msa));
+        sorted = 1;
 
         /* Convert into internal representation  */
         if(msa->biotype == ALN_BIOTYPE_DNA){
@@ -147,6 +149,10 @@ int kalign_run(struct msa *msa, int n_threads, int type, float gpo, float gpe, f
         free_tasks(tasks);
         return OK;
 ERROR:
+        if(sorted){
+                /* give the caller's sequences back in the order they were supplied */
+                msa_sort_rank(msa);
+        }
         aln_param_free(ap);
         free_tasks(tasks);
         return FAIL;
